@@ -227,6 +227,8 @@ func shapeOf(args [][]byte, pre *model.KS, keys []string) string {
 			parts = append(parts, strings.ToLower(s))
 		case s == "":
 			parts = append(parts, "empty")
+		case isStreamID(s) != "":
+			parts = append(parts, isStreamID(s))
 		default:
 			if i, err := strconv.ParseInt(s, 10, 64); err == nil {
 				switch {
@@ -253,6 +255,30 @@ func shapeOf(args [][]byte, pre *model.KS, keys []string) string {
 		}
 	}
 	return strings.Join(parts, ",")
+}
+
+// isStreamID classifies ms-seq shaped arguments: "id", "id>i64" (a part exceeds int64), "id-*".
+func isStreamID(s string) string {
+	i := strings.IndexByte(s, '-')
+	if i <= 0 || i == len(s)-1 {
+		return ""
+	}
+	ms, seq := s[:i], s[i+1:]
+	if _, err := strconv.ParseUint(ms, 10, 64); err != nil {
+		return ""
+	}
+	if seq == "*" {
+		return "id-*"
+	}
+	if _, err := strconv.ParseUint(seq, 10, 64); err != nil {
+		return ""
+	}
+	_, e1 := strconv.ParseInt(ms, 10, 64)
+	_, e2 := strconv.ParseInt(seq, 10, 64)
+	if e1 != nil || e2 != nil {
+		return "id>i64"
+	}
+	return "id"
 }
 
 type replayDoc struct {
